@@ -1228,7 +1228,8 @@ pub fn time_4(hour_value: &Value, minute_value: &Value, second_value: &Value, du
           let seconds = second.trunc();
           let nanoseconds = (second.fract() * FeelNumber::nano()).trunc();
           match duration_value {
-            Value::DaysAndTimeDuration(duration) => {
+            // the offset must be expressible in a time literal: less than 15 hours either way
+            Value::DaysAndTimeDuration(duration) if duration.as_seconds().abs() < 15 * 3_600 => {
               if let Some(feel_time) = FeelTime::new_hmso_opt(
                 hour.to_u8().unwrap(),
                 minute.to_u8().unwrap(),
